@@ -191,6 +191,10 @@ impl<'a> Tree<'a> {
                     Some(parent) => Found::Container(parent),
                     None => return Err("not found: the path climbs above the root".to_owned()),
                 },
+                // (the runtime never finds anything under an empty name)
+                Component::Name(name) if name.is_empty() => {
+                    return Err("not found: the path has an empty component".to_owned());
+                }
                 Component::Name(name) => match node.named.get(name) {
                     Some(child) => Found::Container(*child),
                     None => {
